@@ -119,6 +119,7 @@ type Result struct {
 	Outcomes      map[string]int
 	UninitGlobals map[string]int
 	MaxDepth      int
+	DecisionKinds map[string]int64
 	Validation    []PathSample // passing paths with models, for translator validation
 }
 
@@ -325,6 +326,20 @@ func (m *machine) finish(outcome string) {
 		res.MaxDepth = len(m.trace)
 	}
 	res.Outcomes[outcome]++
+	if os.Getenv("VERIF_DUMP_PATH") != "" && fmt.Sprint(res.Paths) == os.Getenv("VERIF_DUMP_PATH") {
+		for i, d := range m.trace {
+			fmt.Fprintf(os.Stderr, "  decision %d: %s choice=%d n=%d %s\n", i, d.Kind, d.Choice, d.N, m.traceWhere[i])
+		}
+	}
+	if res.DecisionKinds == nil {
+		res.DecisionKinds = map[string]int64{}
+	}
+	for _, d := range m.trace[len(m.prefix):] {
+		res.DecisionKinds[d.Kind]++
+	}
+	if len(m.prefix) > 0 {
+		res.DecisionKinds["alt:"+m.prefix[len(m.prefix)-1].Kind]++
+	}
 	for k, v := range m.bounds {
 		res.Bounds[k] = v
 	}
@@ -379,6 +394,13 @@ func (m *machine) inconclusive(msg string) {
 
 func (m *machine) recordDecision(d decision) {
 	m.trace = append(m.trace, d)
+	if os.Getenv("VERIF_DUMP_PATH") != "" {
+		w := ""
+		if m.cur != nil {
+			w = m.cur.name + m.where()
+		}
+		m.traceWhere = append(m.traceWhere, w)
+	}
 	if len(m.trace) > m.cfg.MaxDecisions {
 		panic(pathEnd{"limit", fmt.Sprintf("more than %d decisions on one path%s", m.cfg.MaxDecisions, m.where())})
 	}
